@@ -253,6 +253,17 @@ type Tokenizer struct {
 	dialect    keywords.SQLDialect // SQL dialect for dialect-specific keyword recognition
 	logger     *slog.Logger        // Optional structured logger for verbose tracing
 	Comments   []models.Comment    // Comments captured during tokenization
+	posCache   positionCache       // Last result of toSQLPosition (makes successive conversions O(distance))
+}
+
+// positionCache remembers the last offset converted by toSQLPosition together with its line
+// and column, so that the next conversion only has to look at the bytes between the two
+// offsets instead of rescanning the line table and the line prefix.
+type positionCache struct {
+	valid   bool
+	index   int // byte offset of the cached position (already clamped to len(input))
+	lineIdx int // index into lineStarts of the line containing index
+	column  int // 1-based column of index, a tab counting as 4
 }
 
 // New creates a new Tokenizer with default configuration and keyword support.
@@ -428,6 +439,7 @@ func (t *Tokenizer) Tokenize(input []byte) ([]models.TokenWithSpan, error) {
 			t.lineStarts = append(t.lineStarts, i+1)
 		}
 	}
+	t.posCache = positionCache{}
 
 	// Pre-allocate token slice with better capacity estimation
 	// More accurate estimation based on typical SQL token density
@@ -567,6 +579,7 @@ func (t *Tokenizer) TokenizeContext(ctx context.Context, input []byte) ([]models
 			t.lineStarts = append(t.lineStarts, i+1)
 		}
 	}
+	t.posCache = positionCache{}
 
 	// Pre-allocate token slice with better capacity estimation
 	estimatedTokens := len(input) / 4
@@ -1634,40 +1647,87 @@ func (t *Tokenizer) readPunctuation() (models.Token, error) {
 }
 
 // toSQLPosition converts an internal Position => a models.Location
+//
+// The line is found by binary search in lineStarts and the column is derived from the
+// previously converted position when that lies on the same line, so a sequence of
+// conversions at nearby offsets (two per token during tokenization) costs time
+// proportional to the distance between them rather than to the length of the line and
+// of the line table.
 func (t *Tokenizer) toSQLPosition(pos Position) models.Location {
-	// Find the line containing pos
+	idx := pos.Index
+	c := &t.posCache
+
+	// Find the line containing idx: the last line start that is <= idx.
+	// lineIdx == -1 means that no line start is <= idx (idx < 0): line 1, starting at 0.
+	lineIdx := -1
+	if n := len(t.lineStarts); n > 0 && t.lineStarts[0] <= idx {
+		switch {
+		case c.valid && c.lineIdx < n && t.lineStarts[c.lineIdx] <= idx &&
+			(c.lineIdx+1 == n || idx < t.lineStarts[c.lineIdx+1]):
+			lineIdx = c.lineIdx // same line as the previous conversion
+		case c.valid && c.lineIdx+1 < n && t.lineStarts[c.lineIdx+1] <= idx &&
+			(c.lineIdx+2 == n || idx < t.lineStarts[c.lineIdx+2]):
+			lineIdx = c.lineIdx + 1 // the line after it
+		default:
+			lo, hi := 0, n // invariant: lineStarts[lo] <= idx, and lineStarts[hi] > idx or hi == n
+			for hi-lo > 1 {
+				mid := int(uint(lo+hi) >> 1)
+				if t.lineStarts[mid] <= idx {
+					lo = mid
+				} else {
+					hi = mid
+				}
+			}
+			lineIdx = lo
+		}
+	}
 	line := 1
 	lineStart := 0
-
-	// Find the line number using lineStarts
-	for i := 0; i < len(t.lineStarts); i++ {
-		if t.lineStarts[i] > pos.Index {
-			break
-		}
-		line = i + 1
-		lineStart = t.lineStarts[i]
+	if lineIdx >= 0 {
+		line = lineIdx + 1
+		lineStart = t.lineStarts[lineIdx]
 	}
 
-	// Calculate column by counting characters from line start
-	// Column is 1-based, so we start at 1
+	// Calculate column by counting characters from line start.
+	// Column is 1-based; a tab counts as 4, every other byte as 1.
+	end := idx
+	if end > len(t.input) {
+		end = len(t.input)
+	}
 	column := 1
-	for i := lineStart; i < pos.Index && i < len(t.input); i++ {
-		if t.input[i] == '\t' {
-			column += 4 // Treat tab as 4 spaces
-		} else {
-			column++
+	if end > lineStart {
+		switch {
+		case c.valid && lineIdx >= 0 && c.lineIdx == lineIdx && c.index >= lineStart && c.index <= end:
+			// forward from the cached position
+			column = c.column + t.columnWidth(c.index, end)
+		case c.valid && lineIdx >= 0 && c.lineIdx == lineIdx && c.index > end && c.index <= len(t.input) &&
+			c.index-end < end-lineStart:
+			// a short step back from the cached position
+			column = c.column - t.columnWidth(end, c.index)
+		default:
+			column = 1 + t.columnWidth(lineStart, end)
 		}
 	}
-
-	// Ensure column is never less than 1
-	if column < 1 {
-		column = 1
+	if lineIdx >= 0 && end >= lineStart {
+		*c = positionCache{valid: true, index: end, lineIdx: lineIdx, column: column}
 	}
 
 	return models.Location{
 		Line:   line,
 		Column: column,
 	}
+}
+
+// columnWidth returns the number of columns occupied by input[from:to]
+// (a tab counts as 4 columns, every other byte as 1).
+func (t *Tokenizer) columnWidth(from, to int) int {
+	w := to - from
+	for _, b := range t.input[from:to] {
+		if b == '\t' {
+			w += 3
+		}
+	}
+	return w
 }
 
 // getCurrentPosition returns the Location of the tokenizer's current byte index
@@ -1710,11 +1770,17 @@ func isIdentifierChar(r rune) bool {
 func (t *Tokenizer) hasCodeBeforeOnLine(idx int) bool {
 	// Find the start of the line containing idx
 	lineStart := 0
-	for i := len(t.lineStarts) - 1; i >= 0; i-- {
-		if t.lineStarts[i] <= idx {
-			lineStart = t.lineStarts[i]
-			break
+	lo, hi := 0, len(t.lineStarts) // lineStarts[lo] <= idx (once checked), lineStarts[hi] > idx or hi == len
+	if hi > 0 && t.lineStarts[0] <= idx {
+		for hi-lo > 1 {
+			mid := int(uint(lo+hi) >> 1)
+			if t.lineStarts[mid] <= idx {
+				lo = mid
+			} else {
+				hi = mid
+			}
 		}
+		lineStart = t.lineStarts[lo]
 	}
 	// Check for non-whitespace between lineStart and idx
 	for i := lineStart; i < idx && i < len(t.input); i++ {
